@@ -13,6 +13,11 @@ _ADDR = re.compile(r"0x[0-9a-fA-F]+")
 _PYADDR = re.compile(r" at 0x[0-9a-fA-F]+")
 
 
+# the per-view state that *is* the coordinate system of a NumPy vector array; any other instance attribute
+# (a private cache, say) is neither part of a value nor operand state in the sense of C16
+_COORD_KEYS = ("_azimuthal_type", "_longitudinal_type", "_temporal_type")
+
+
 def _dt(v):
     """Real dtype of an ndarray (the coordinate classes shadow ``dtype`` with a class attribute)."""
     return numpy.ndarray.dtype.__get__(v)
@@ -79,7 +84,10 @@ def canon(v, depth=0, behavior=False):
             out.append("BYTES?" + type(e).__name__)
         d = getattr(v, "__dict__", None)
         if d:
-            out.append(sorted((k, getattr(x, "__name__", repr(x))) for k, x in d.items()))
+            # only the per-view coordinate types are part of the value; any other instance attribute (a cache) is not
+            cd = sorted((k, getattr(x, "__name__", repr(x))) for k, x in d.items() if k in _COORD_KEYS)
+            if cd:
+                out.append(cd)
         return out
     if isinstance(v, numpy.void):
         return ["VOID", str(v.dtype.descr), v.tobytes().hex()]
@@ -165,11 +173,6 @@ def digest(v, behavior=False):
 # bit-for-bit operand snapshots (I2): everything an operation could corrupt,
 # including secondary resources (base array, dtype object, behavior dict).
 # ---------------------------------------------------------------------------
-
-# the per-view state that *is* the coordinate system of a NumPy vector array; any other instance attribute
-# (a private cache, say) is not operand state in the sense of C16
-_COORD_KEYS = ("_azimuthal_type", "_longitudinal_type", "_temporal_type")
-
 
 def snap(v, depth=0):
     if depth > 4:
